@@ -33,8 +33,9 @@ META = {
     "same-units-resolution|axes-same-direction (CRS.units of polar CRSs is ('metre',''): default resolution re-estimated "
     "although units are shared; repaired on branch fix2-C11).  Partial: curvature of real projections (that the buffered, "
     "100-point densified footprint's bbox contains every projected pixel) is a hypothesis, sampled by the oracle inside the "
-    "CRSs' areas of use (rasters whose 0.9 px buffer crosses the antimeridian are excluded: the lon/lat footprint box then "
-    "spans the globe); pyproj/PROJ, shapely buffer and the UTM database query are trusted parameters; IEEE rounding sampled.  "
+    "CRSs' areas of use; known finding utm-zone-of-raster|buffer-crosses-antimeridian (a raster within one buffer width of "
+    "+-180: the lon/lat footprint box spans the globe and the UTM zone is arbitrary; recorded input replayed every run, "
+    "enclosure not judged there); pyproj/PROJ, shapely buffer and the UTM database query are trusted parameters; IEEE rounding sampled.  "
     "Spies sit at public names (GeoBox.from_bbox, overlap.get_scale_at_point, pyproj.database.query_utm_crs_info); private "
     "helpers are looked up defensively and their direct streams skipped with a note when absent.",
     "technique": "Lean 4 proof over hand model + differential correspondence with real code + pyproj oracle",
@@ -407,7 +408,7 @@ def exact_cog_part(R: Run, mods):
     rng = R.rng
     anchors = ["default", "default", "edge", "edge", "center", "floating", (0.25, 0.75), (0.25, 0.25)]
     srcs = []
-    for _ in range(R.pick(104, 900)):
+    for _ in range(R.pick(52, 900)):
         crs = rng.choice(["EPSG:32633", "EPSG:3857", "EPSG:4326", "EPSG:3577", "EPSG:6933", "ESRI:54009", "OGC:CRS84"])
         ny, nx = rng.randint(1, 60), rng.randint(1, 60)
         if crs in ("EPSG:4326", "OGC:CRS84"):
@@ -605,7 +606,7 @@ def units_part(R: Run, mods):
         codes = pat[key]
         chosen += [(c, "pattern") for c in rng.sample(codes, min(len(codes), R.pick(1, 3)))]
     allc = sorted(unit_of)
-    chosen += [(c, "sample") for c in rng.sample(allc, R.pick(8, 160))]
+    chosen += [(c, "sample") for c in rng.sample(allc, R.pick(2, 160))]
     by_unit = collections.defaultdict(list)
     for c in allc:
         by_unit[unit_of[c]].append(c)
@@ -815,7 +816,7 @@ def utm_part(R: Run, mods):
     from odc.geo import geom
 
     rng = R.rng
-    for _ in range(R.pick(16, 120)):
+    for _ in range(R.pick(8, 120)):
         lon = rng.uniform(-179, 179)
         lat = rng.uniform(-79, 83)
         if 56 <= lat <= 64 and 0 <= lon <= 13 or lat >= 72 and 0 <= lon <= 42:
@@ -852,7 +853,7 @@ def utm_part(R: Run, mods):
     if _pick is None:
         R.notes.append("odc.geo.crs._pick_best_crs (private helper) not found: its direct correspondence stream is skipped; "
                        "the UTM choice stays covered through norm_crs / CRS.utm / compute_output_geobox('utm*')")
-    for _ in range(R.pick(40, 400) if _pick is not None else 0):
+    for _ in range(R.pick(30, 400) if _pick is not None else 0):
         lon = rng.uniform(-170, 170)
         lat = rng.uniform(-70, 70)
         w = rng.choice([0.0, 1e-5, 1e-5, 1.0, 4.0, 9.0])
@@ -974,7 +975,7 @@ def nonepsg_part(R: Run, mods):
     Affine, GeoBox, ov, M, CRS, norm_crs, _pick, resxy_, xy_, AnchorEnum = mods
     rng = R.rng
     combos = []
-    for _ in range(R.pick(14, 120)):
+    for _ in range(R.pick(7, 120)):
         lon, lat = rng.uniform(-150, 150), rng.uniform(-55, 60)
         _, non = crs_pool(rng, lon, lat, utm_epsg(lon, lat), False)
         a, b = rng.choice(non), rng.choice(non + ["EPSG:3857", "EPSG:4326"])
@@ -1035,7 +1036,7 @@ def float_part(R: Run, mods):
     Affine, GeoBox, ov, M, CRS, norm_crs, _pick, resxy_, xy_, AnchorEnum = mods
     rng = R.rng
     anchors = ["default", "default", "default", "edge", "center", "floating", (0.3, 0.6), (0.3, 0.3)]
-    for it in range(R.pick(84, 600)):
+    for it in range(R.pick(28, 600)):
         aus = rng.random() < 0.2
         if aus:
             lon, lat = rng.uniform(118, 148), rng.uniform(-38, -15)
@@ -1045,7 +1046,7 @@ def float_part(R: Run, mods):
         # extents: tile ... continental; UTM-related pairs stay within a zone's neighbourhood
         cls = rng.choice(["tile", "tile", "region", "continental"])
         if it % 30 == 15:
-            crs_churn(R, mods, R.pick(40, 120))
+            crs_churn(R, mods, R.pick(20, 120))
         pool_e, pool_n = crs_pool(rng, lon, lat, u, aus)
         src_crs = rng.choice(pool_e + pool_e + pool_n)
         dst = rng.choice(pool_e + pool_n + rng.sample(UTM_SPELLINGS, 4))
@@ -1334,7 +1335,7 @@ def fastpath_part(R: Run, mods):
     passed explicitly equal to the source's, and the CRS spelled differently)"""
     Affine, GeoBox, ov, M, CRS, norm_crs, _pick, resxy_, xy_, AnchorEnum = mods
     rng = R.rng
-    for _ in range(R.pick(56, 400)):
+    for _ in range(R.pick(40, 400)):
         spec = rng.choice(["EPSG:32633", "EPSG:3857", "EPSG:4326", "EPSG:6933", "ESRI:54009", "OGC:CRS84", "EPSG:3577"])
         lon, lat = (rng.uniform(12.5, 17.5), rng.uniform(35, 60)) if spec != "EPSG:3577" else (rng.uniform(125, 145), rng.uniform(-35, -18))
         rotated = rng.choice([False, False, False, "mirror", True])
@@ -1380,6 +1381,25 @@ def fastpath_part(R: Run, mods):
                      f"but the same request with resolution={sr.x, sr.y} gives {tuple(slow.shape)} {tuple(slow.affine)[:6]}")
 
 
+def antimeridian_corpus(R: Run, mods):
+    """recorded failing input (kept every run): a raster wholly inside UTM zone 1, 2 m from the antimeridian; its 0.9 px
+    footprint buffer crosses +-180 and 'utm-n' resolves to zone 2"""
+    import pyproj
+
+    Affine, GeoBox, ov = mods[0], mods[1], mods[2]
+    g = GeoBox((100, 100), Affine(10.0, 0.0, 314901.1311582618, 0.0, -10.0, 3745609.640497205), "EPSG:32701")
+    case = {"corpus": "antimeridian", "src": f"{tuple(g.shape)} {tuple(g.affine)[:6]} EPSG:32701", "dst": "utm-n"}
+    try:
+        out = ov.compute_output_geobox(g, "utm-n")
+        back = pyproj.Transformer.from_crs("EPSG:32701", "EPSG:4326", always_xy=True)
+        lons = [back.transform(g.affine.c + i * 1000.0, g.affine.f - j * 1000.0)[0] for i in (0, 1) for j in (0, 1)]
+        z = {int((v + 180) // 6) + 1 for v in lons}
+        R.oracle(len(z) != 1 or out.crs.epsg % 100 == min(60, z.pop()), "utm-zone-of-raster|buffer-crosses-antimeridian", case,
+                 f"utm-n resolved to EPSG:{out.crs.epsg} for a raster spanning lon {min(lons):.7f}..{max(lons):.7f} (zone 1)")
+    except Exception as e:  # pylint: disable=broad-except
+        R.oracle(False, "compute-output-raises", case, repr(e))
+
+
 def utm_matrix_part(R: Run, mods):
     """'utm' / 'utm-n' / 'utm-s' destinations over a position x size matrix: rasters from a single 0.5 m pixel to
     ~300 km, centred +-{0.1 px, 0.9 px, 10 px, 1 km} from every kind of zone boundary (lon = 6k deg, the equator,
@@ -1394,7 +1414,7 @@ def utm_matrix_part(R: Run, mods):
     # a fixed core of the matrix (the cells where a wrong pick does not overlap the raster at all: chips a few metres
     # across, less than a pixel / ten pixels from a boundary) and a random sample of the rest
     core = [(sz, k * f, kind) for sz in sizes[:3] for kind in ("zone", "equator") for f in (0.9, 10) for k in (1, -1)]
-    cells = core + [None] * R.pick(30, 400)
+    cells = core + [None] * R.pick(8, 400)
     for cell in cells:
         npx, res = rng.choice(sizes) if cell is None else cell[0]
         off_m = (rng.choice([0.1 * res, 0.9 * res, 10 * res, 1000.0]) * rng.choice([1, -1])) if cell is None else cell[1] * res
@@ -1433,13 +1453,11 @@ def utm_matrix_part(R: Run, mods):
         lons, lats = [c[0] for c in cs], [c[1] for c in cs]
         if not all(math.isfinite(v) for v in lons + lats) or max(lons) - min(lons) > 20:
             continue
-        if (180 - max(abs(v) for v in lons)) * 111320.0 * math.cos(math.radians(lat)) < 2.0 * res:
-            # a source given in a UTM CRS is turned against the meridians (grid convergence): a corner can come closer to
-            # +-180 than the centre-based margin above allows, and the 0.9 px footprint buffer then crosses the antimeridian
-            # (the footprint's lon/lat box spans the globe and the UTM choice is arbitrary) — excluded like the rest of
-            # "outside the valid area of the source CRS"; reported as a known-finding candidate
-            R.count("utm-matrix:skipped-buffer-crosses-antimeridian")
-            continue
+        # a source given in a UTM CRS is turned against the meridians (grid convergence): a corner can come closer to +-180
+        # than the centre-based margin above allows; the 0.9 px footprint buffer then crosses the antimeridian, the
+        # footprint's lon/lat box spans the globe and the UTM choice is arbitrary — judged under its own key
+        # (known finding `utm-zone-of-raster|buffer-crosses-antimeridian`), enclosure etc. not judged there
+        near_am = (180 - max(abs(v) for v in lons)) * 111320.0 * math.cos(math.radians(lat)) < 2.0 * res
         req = rng.choice(UTM_SPELLINGS)
         rl = req.lower()
         case = {"utm-matrix": kind, "src": f"{tuple(g.shape)} {tuple(g.affine)[:6]} {sc}", "dst": req, "centre": [lon, lat],
@@ -1462,8 +1480,10 @@ def utm_matrix_part(R: Run, mods):
         z_lo, z_hi = int((lo + 180) // 6) + 1, int((hi + 180 - 1e-12) // 6) + 1
         if z_lo == z_hi:
             ok = ok and (e % 100) == min(60, z_lo)
-        R.oracle(ok, "utm-zone-of-raster", case,
+        R.oracle(ok, "utm-zone-of-raster" + ("|buffer-crosses-antimeridian" if near_am else ""), case,
                  f"{req} resolved to EPSG:{e} (area of use {aou.west}..{aou.east} E) for a raster spanning lon {lo:.7f}..{hi:.7f}", sig=f"utm-matrix|{kind}")
+        if near_am:
+            continue
         south = e > 32700
         if rl in ("utm-n", "utm-s"):
             R.oracle(south == (rl == "utm-s"), "utm-hemisphere-out", case, f"{req} resolved to EPSG:{e}")
@@ -1483,7 +1503,7 @@ def coarse_part(R: Run, mods):
     anchor fractions are derived from the footprint bbox the code will see)"""
     Affine, GeoBox, ov, M, CRS, norm_crs, _pick, resxy_, xy_, AnchorEnum = mods
     rng = R.rng
-    for _ in range(R.pick(30, 160)):
+    for _ in range(R.pick(12, 160)):
         k = rng.random()
         if k < 0.6:
             z = rng.randint(28, 37)
@@ -1537,9 +1557,10 @@ def run(R: Run):
     glue_part(R, mods)
     gcp_source_part(R, mods)
     units_part(R, mods)
-    crs_churn(R, mods, R.pick(320, 1600))
+    crs_churn(R, mods, R.pick(120, 1600))
     nonepsg_part(R, mods)
     fastpath_part(R, mods)
+    antimeridian_corpus(R, mods)
     utm_matrix_part(R, mods)
     coarse_part(R, mods)
     float_part(R, mods)
